@@ -162,7 +162,7 @@ def body_lines(case):
         return ["x"]
     if case["src"] == "spec":
         return SPEC[case["idx"] % len(SPEC)].rstrip("\n").split("\n")
-    g = G.Gen(random.Random(case["seed"]), blocks=case.get("blocks") or BLOCKS, inlines=case.get("inlines"), max_depth=3, heading_in_container=False, hr_in_container=True)
+    g = G.Gen(random.Random(case["seed"]), blocks=case.get("blocks") or BLOCKS, inlines=case.get("inlines"), max_depth=3, heading_in_container=False, hr_in_container=True, exotic=case["seed"] % 3 == 0)
     frag = g.blocks_seq(0, 1, 3, top=False)
     return list(frag.lines)
 
